@@ -426,6 +426,17 @@ def check_file(route, out, expect):
             dg = r.read_correlated_diagonal(0)
             if not bits_equal(dg, np.stack([got[k_, k_] for k_ in range(min(n0, n1))])):
                 return 'read_correlated_diagonal(0) is not the diagonal of read_volume()'
+            # sub-volumes not aligned with the blocks: starting one short of a block boundary on every axis that has one, and
+            # the cube less its first line / sample on every axis
+            b_ = [int(v) for v in r.blockshape]
+            lo_ = [min(max(b_[k] - 1, 0), max(n_ - 2, 0)) if n_ > b_[k] else min(1, n_ - 1) for k, n_ in enumerate((n0, n1, n2))]
+            for box in ((lo_[0], n0, lo_[1], n1, lo_[2], n2), (1, n0, 1, n1, 1, n2),
+                        (lo_[0], min(n0, lo_[0] + 2), 0, n1, lo_[2], min(n2, lo_[2] + 2)), (0, n0, lo_[1], min(n1, lo_[1] + 2), 0, n2)):
+                if box[0] < box[1] and box[2] < box[3] and box[4] < box[5]:
+                    sv_ = r.read_subvolume(*box)
+                    want_ = got[box[0]:box[1], box[2]:box[3], box[4]:box[5]]
+                    if sv_.shape != want_.shape or not bits_equal(sv_, want_):
+                        return f'read_subvolume{box} (shape {sv_.shape}) is not that box of read_volume() (shape {want_.shape})'
     sl = tuple(slice(0, n) for n in src.shape)
     sv = s.volume()[sl]
     if got.shape != src.shape or not bits_equal(got, sv):
